@@ -3,6 +3,7 @@ mod c04;
 mod c09;
 mod c10;
 mod c14;
+mod c15;
 mod stream_mock;
 mod c11;
 mod tsx_client;
@@ -19,6 +20,7 @@ fn main() {
     match args[1].as_str() {
         "c10" => c10::run(&cases),
         "c14" => c14::run(&cases),
+        "c15" => c15::run(&cases),
         "c09" => c09::run(&cases),
         "c11" => c11::run(&cases),
         "c04" => c04::run(&cases),
